@@ -132,8 +132,10 @@ def run(tier):
     rep = core.Report("C06", tier)
     quick = tier == "quick"
     r = core.model_check("VoronoiFPS.tla", "mc/VoronoiFPS_%s.cfg" % ("quick" if quick else "thorough"), timeout=3 * 3600, heap="24g")
-    rep.add_mc("VoronoiFPS refines FPS (%s)" % ("4 points on {0,1,3}^2, 3 switching points" if quick else "5 points on {0,1,2,5}^2, 3 switching points"), r)
+    rep.add_mc("VoronoiFPS refines FPS (%s)" % ("4 points on {0,1,3}^2, 3 switching points" if quick else "5 points on {0,1,3}^2, 3 switching points"), r)
     if not quick:
+        r = core.model_check("VoronoiFPS.tla", "mc/VoronoiFPS_thorough2.cfg", timeout=3 * 3600, heap="24g")
+        rep.add_mc("VoronoiFPS refines FPS (4 points on {0,1,2,5}^2, 3 switching points)", r)
         r = core.model_check("VoronoiFPS.tla", "mc/VoronoiFPS_allff.cfg", timeout=3600, heap="16g")
         rep.add_mc("VoronoiFPS refines FPS, every calibration outcome k/128 and 1.0, 3 points on {0,1,3}^2", r)
     rep.cov["exhaustive"] = True
